@@ -151,6 +151,7 @@ typedef struct {
 	int local_tried[NCAN];                     /* number of failed prepends the held object went through */
 	int last_prepend_retry;
 	long log_msgs;
+	KSI_VerificationContext app_vc; int have_app_vc;   /* the application's own verification context, kept for the life of the context */
 } world_t;
 
 static int discard_log(void *logCtx, int level, const char *message) {
@@ -177,6 +178,7 @@ static void world_close(world_t *w) {
 	int i;
 	for (i = 0; i < w->na; i++) { KSI_PublicationsFile_free(w->a[i].upf[0]); KSI_PublicationsFile_free(w->a[i].upf[1]); KSI_PublicationData_free(w->a[i].upd); }
 	for (i = 0; i < NCAN; i++) KSI_AggregationHashChain_free(w->local[i]);
+	if (w->have_app_vc) KSI_VerificationContext_clean(&w->app_vc);
 	KSI_CTX_free(w->ctx);
 	memset(w, 0, sizeof *w);
 }
@@ -234,7 +236,7 @@ static void server_for(const sdesc *d, int ext) {
 }
 
 /* ------------------------------------------------------------------ the operations proper (used on the shared and on fresh contexts alike) */
-typedef struct { int rc, res, err; } verdict;
+typedef struct { int rc, res, err, rc2; } verdict;   /* rc2: the helper call with the application's long-lived verification context (internal policy) */
 static long g_calls;
 
 static void do_verify(world_t *w, KSI_Signature *sig, const sdesc *d, int pol, int doc, int lvl, int ext, verdict *v) {
@@ -263,6 +265,14 @@ static void do_verify(world_t *w, KSI_Signature *sig, const sdesc *d, int pol, i
 	v->err = (v->rc == KSI_OK && res) ? (int)res->finalResult.errorCode : -1;
 	KSI_PolicyVerificationResult_free(res);
 	KSI_VerificationContext_clean(&vc);
+	v->rc2 = 0;
+	if (pol == P_INTERNAL) {
+		/* the same question through the helper, with the verification context the application keeps for all its calls: what an
+		 * earlier call was given explicitly (hash, level) must not stay behind in it */
+		if (!w->have_app_vc) { if (KSI_VerificationContext_init(&w->app_vc, w->ctx) != KSI_OK) vf_harness_error("VerificationContext_init"); w->have_app_vc = 1; }
+		v->rc2 = KSI_Signature_verifyWithPolicy(sig, h, LEVELS[lvl], KSI_VERIFICATION_POLICY_INTERNAL, &w->app_vc);
+		g_calls++;
+	}
 	KSI_DataHash_free(h);
 }
 
@@ -672,11 +682,11 @@ static void exec_op(const op_t *o) {
 		case K_VERIFY: {
 			verdict got, ref = ref_verdict(&src->d, o->a, o->b, o->c, o->d);
 			do_verify(&H.w, src->sig, &src->d, o->a, o->b, o->c, o->d, &got);
-			vf_obs("v%x.%d.%x", got.rc, got.res, got.err);
+			vf_obs("v%x.%d.%x.%x", got.rc, got.res, got.err, got.rc2);
 			vf_outcome("verify:%s:%s", PNAME[o->a], got.rc != KSI_OK ? "error" : got.res == KSI_VER_RES_OK ? "OK" : got.res == KSI_VER_RES_FAIL ? "FAIL" : "NA");
-			if (got.rc != ref.rc || got.res != ref.res || got.err != ref.err)
-				FAIL("verdict-differs-from-fresh-context", "op #%d %s on signature of origin sig%d%s%s: rc 0x%x result %d error 0x%x; the same call on a fresh context gives rc 0x%x result %d error 0x%x",
-					H.opno, op_text(o), src->d.origin, src->d.prep ? "+prepended" : "", src->d.extd ? "+extended" : "", got.rc, got.res, got.err, ref.rc, ref.res, ref.err);
+			if (got.rc != ref.rc || got.res != ref.res || got.err != ref.err || got.rc2 != ref.rc2)
+				FAIL("verdict-differs-from-fresh-context", "op #%d %s on signature of origin sig%d%s%s: rc 0x%x result %d error 0x%x (helper with the application's context: 0x%x); the same call on a fresh context gives rc 0x%x result %d error 0x%x (helper 0x%x)",
+					H.opno, op_text(o), src->d.origin, src->d.prep ? "+prepended" : "", src->d.extd ? "+extended" : "", got.rc, got.res, got.err, got.rc2, ref.rc, ref.res, ref.err, ref.rc2);
 			break;
 		}
 		default: {
